@@ -286,6 +286,7 @@ func (e *Engine) isMatchDigitPrefilter(haystack []byte) bool {
 
 	atomic.AddUint64(&e.stats.PrefilterHits, 1)
 	pos := 0
+	budget := candidateBudget{origin: pos}
 
 	// Acquire pooled state once for the entire loop to avoid repeated get/put
 	state := e.getSearchState()
@@ -299,18 +300,23 @@ func (e *Engine) isMatchDigitPrefilter(haystack []byte) bool {
 
 		// Use ANCHORED DFA — pattern MUST start at digitPos.
 		// Unanchored FindAt scans to end of input per candidate = O(n²).
-		// Anchored checks only a few bytes per candidate = O(pattern_len).
+		// Anchored checks only a few bytes per candidate when the scan dies
+		// early; scans that do not are charged to the budget (see candidateBudget)
+		// and, once it is exhausted, one unanchored search decides the rest.
 		if e.dfa != nil {
 			atomic.AddUint64(&e.stats.DFASearches, 1)
-			if e.dfa.SearchAtAnchored(state.dfaCache, haystack, digitPos) != -1 {
+			endPos, stop := e.dfa.SearchAtAnchoredStopAt(state.dfaCache, haystack, digitPos)
+			if endPos != -1 {
 				return true
+			}
+			if !budget.charge(digitPos, stop) {
+				return e.dfa.IsMatchAt(state.dfaCache, haystack, digitPos+1)
 			}
 		} else {
+			// PikeVM searches unanchored from digitPos: its answer is final.
 			atomic.AddUint64(&e.stats.NFASearches, 1)
-			start, _, found := state.pikevm.SearchAt(haystack, digitPos)
-			if found && start == digitPos {
-				return true
-			}
+			_, _, found := state.pikevm.SearchAt(haystack, digitPos)
+			return found
 		}
 
 		pos = digitPos + 1
